@@ -314,7 +314,7 @@ func checkC12(reg *Registry, c interpCase) pbt.Result {
 		// Both re-encodings are normalised through the map-backed generated reader.
 		norm := func(b []byte) ([]byte, bool) {
 			o := Create(it, false)
-			if rest, err := gRead(o, c.Format, b); err != nil || len(rest) != len(gRest) {
+			if rest, err := gRead(o, c.Format, b); err != nil || len(rest) != 0 {
 				return nil, false
 			}
 			w, err := gWrite(o, c.Format)
